@@ -3,7 +3,7 @@
 # (outside /repo and /verif), runs the given checks against it, removes the copy.
 patch="$1"; shift
 d=$(mktemp -d /tmp/mut.XXXXXX)
-cp -r /repo/. "$d/" && rm -rf "$d/.git"
+rsync -a --exclude .git /repo/ "$d/"
 ( cd "$d" && patch -p1 -s < "$patch" ) || { echo "PATCH-FAILED"; rm -rf "$d"; exit 3; }
 rc=0
 for id in "$@"; do
